@@ -129,3 +129,42 @@ Lemma no_ff_results_identical : forall ob R R1 R2 fl dirs disk,
   loop_results false ob R R1 -> loop_results false ob R R2 ->
   R1 = R2 /\ check_step fl R1 dirs disk = check_step fl R2 dirs disk.
 Proof. intros ob R R1 R2 fl dirs disk H1 H2. cbn in *. subst. auto. Qed.
+
+(* ------------------------------------------------------------------ the loop as a run configures it (D56) *)
+Lemma update_run_not_truncated : forall fl ob R R',
+  f_update fl <> None -> run_loop fl ob R R' -> R' = R.
+Proof.
+  intros fl ob R R' HU H. unfold run_loop, effective_fail_fast in H.
+  destruct (f_update fl); [|congruence]. rewrite andb_false_r in H. exact H.
+Qed.
+
+Lemma run_loop_sub : forall fl ob R R', run_loop fl ob R R' -> ff_sub ob R R'.
+Proof.
+  intros fl ob R R' H. unfold run_loop in H. destruct (effective_fail_fast fl); cbn in H; [exact H|].
+  subst. apply ff_sub_refl.
+Qed.
+
+Lemma run_loop_exit : forall fl R R' dirs disk loaded,
+  load_for_run fl disk = Some loaded ->
+  run_loop fl loaded R R' ->
+  o_exit (check_step fl R' dirs disk) = o_exit (check_step fl R dirs disk).
+Proof. intros fl R R' dirs disk loaded HL H. eapply exit_invariant; eauto. eapply run_loop_sub; eauto. Qed.
+
+Lemma run_loop_update_outcome : forall fl R R' dirs disk ob,
+  f_update fl <> None -> run_loop fl ob R R' ->
+  check_step fl R' dirs disk = check_step fl R dirs disk.
+Proof. intros fl R R' dirs disk ob HU H. rewrite (update_run_not_truncated fl ob R R' HU H). reflexivity. Qed.
+
+Lemma check_step_ignores_ff_flag : forall m we ff R dirs disk,
+  check_step (update_flags_ff m we ff) R dirs disk = check_step (update_flags m we) R dirs disk.
+Proof. reflexivity. Qed.
+
+Lemma update_under_fail_fast_same_file : forall m we ff ob R R' dirs disk,
+  run_loop (update_flags_ff m we ff) ob R R' ->
+  o_disk (check_step (update_flags_ff m we ff) R' dirs disk) = o_disk (check_step (update_flags m we) R dirs disk).
+Proof.
+  intros m we ff ob R R' dirs disk H.
+  assert (HU : f_update (update_flags_ff m we ff) <> None) by (cbn; discriminate).
+  rewrite (update_run_not_truncated _ ob R R' HU H).
+  rewrite check_step_ignores_ff_flag. reflexivity.
+Qed.
